@@ -9,6 +9,7 @@
 #include <bxdecay0/event_reader.h>
 #include <bxdecay0/particle.h>
 #include "pool.hpp"
+#include "sanhook.hpp"
 #include <algorithm>
 #include <csignal>
 #include <fcntl.h>
